@@ -1,5 +1,5 @@
 (* build_licensing / build_spdx_licensing: the table of a Licensing built from a license index. *)
-Require Import Model.Base Model.Expr Model.LicTok Model.Licensing.
+Require Import Model.Base Model.Expr Model.Split Model.LicTok Model.Licensing.
 
 (* the fields the loaders read; a missing license_key / spdx_license_key is the empty text,
    a missing is_exception is falsy, a missing is_deprecated is False *)
@@ -28,3 +28,10 @@ Definition ascii_oracle : oracle :=
   {| is_space := fun c => (N.leb 9 c && N.leb c 13) || (N.leb 28 c && N.leb c 32);
      is_wordch := fun c => (N.leb 48 c && N.leb c 57) || (N.leb 65 c && N.leb c 90) || (N.leb 97 c && N.leb c 122) || N.eqb c 95;
      lower_ch := fun c => if N.leb 65 c && N.leb c 90 then [(c + 32)%N] else [c] |}.
+
+(* executable checks on a built table: no stored name has an operator word or a parenthesis among its lower-cased words; every
+   stored name has words *)
+Definition names_opfree_b (O : oracle) (T : list entry) : bool :=
+  forallb (fun nv => forallb (fun w => negb (is_keyword_str w)) (lwords O (fst nv))) (flat_map (entry_adds O) T).
+Definition names_have_words_b (O : oracle) (T : list entry) : bool :=
+  forallb (fun nv => match lwords O (fst nv) with [] => false | _ => true end) (flat_map (entry_adds O) T).
